@@ -574,6 +574,14 @@ def run_txn(W, txn, pre, checks=True, lenient=False):
                                          % (op2, got, exp)))
                     raise OpFailed()
 
+    # a searcher opened on the state before the transaction; refreshed after a
+    # commit it must read exactly like a freshly opened one
+    held = None
+    if checks:
+        try:
+            held = ix.searcher()
+        except Exception:
+            held = None
     try:
         if end in ("raise", "with"):
             try:
@@ -621,7 +629,17 @@ def run_txn(W, txn, pre, checks=True, lenient=False):
         _release(holder.get("w"))
     res.txn = {"ops": eff if len(eff) == len(ops) else list(ops), "end": end}
     if res.problems:
+        if held is not None:
+            held.close()
         return res
+    if held is not None:
+        try:
+            p = refreshed_vs_fresh(held, W.index())
+        except Exception as e:
+            p = ("refresh", "exc:%s@%s" % (type(e).__name__, where(e)), "refresh() after %s raised %r" % (end, e))
+        if p:
+            res.problems.append(p)
+            return res
 
     commits = end in COMMIT_ENDS
     res.live = m.committed() if commits else pre_live(pre)
@@ -679,6 +697,40 @@ def run_txn(W, txn, pre, checks=True, lenient=False):
                 and end in ("default", "with", "ixapi"):
             res.notes.append("merge_small_engaged")
     return res
+
+
+def _view(s):
+    r = s.reader()
+    dca = r.doc_count_all()
+    dele = [bool(r.is_deleted(n)) for n in range(dca)]
+    from whoosh import query as Q
+    post = {}
+    for t in r.lexicon("key"):
+        post[t] = list(r.postings("key", t).all_ids())
+    return {"generation": r.generation(), "doc_count": r.doc_count(), "is_deleted": dele,
+            "all_doc_ids": list(r.all_doc_ids()), "every": sorted(s.docs_for_query(Q.Every())),
+            "stored": [(n, sorted(s.stored_fields(n).items(), key=repr)) for n in range(dca) if not dele[n]],
+            "postings": post}
+
+
+def refreshed_vs_fresh(held, ix):
+    """held: a searcher opened before the transaction.  After it, refresh()
+    must give a searcher that reads exactly like a freshly opened one."""
+    s2 = held.refresh()
+    try:
+        with ix.searcher() as s1:
+            a, b = _view(s2), _view(s1)
+    finally:
+        # (refresh() documents that the original searcher cannot be used any
+        # more: its readers may live on inside the new one)
+        s2.close()
+    for k in ("generation", "doc_count", "is_deleted", "all_doc_ids", "every", "stored", "postings"):
+        if a[k] != b[k]:
+            kind = k
+            if k in ("is_deleted", "all_doc_ids", "every"):
+                kind = k + ":deleted-doc-visible" if any(x and not y for x, y in zip(b["is_deleted"], a["is_deleted"])) else k
+            return ("refresh", kind, "searcher.refresh() after the commit: %s = %r, a fresh searcher has %r" % (k, a[k], b[k]))
+    return None
 
 
 def _release(w):
@@ -815,6 +867,23 @@ def check_reads(ix, C, live, discipline=False):
                     k = _cmp_ids(got, exp, deleted)
                     if k:
                         return ("postings", k, "postings(%s) ids %r, expected %r" % (label, got, sorted(exp)))
+                    # positioning the posting list on any document number
+                    # (the documented skip_to()) must land on the next LIVE
+                    # posting, also when the target itself is a deleted document
+                    if (name, arg) in r:
+                        api = "postings.skip_to"
+                        for target in range(dca):
+                            m = r.postings(name, arg)
+                            if not m.is_active():
+                                break
+                            if target > m.id():
+                                m.skip_to(target)
+                            want_id = min([n for n in exp if n >= target] or [None], key=lambda x: (x is None, x))
+                            got_id = m.id() if m.is_active() else None
+                            if got_id != want_id:
+                                return ("postings.skip_to", "deleted-doc-visible" if got_id in deleted else "wrong",
+                                        "postings(%s).skip_to(%d) stands on %r, next live posting is %r (deleted %r)"
+                                        % (label, target, got_id, want_id, sorted(deleted)))
                     api = "documents"
                     gotd = Counter(C.doc_from_stored(sf, has_e) for sf in s.documents(**{name: arg}))
                     expd = Counter(docs[n] for n in exp)
